@@ -331,6 +331,9 @@ def run(ctx):
     from ..core import borrow
     from . import c12
     borrow(ctx, "C14", c12.rule_schema, ctx.py)
+    # shared clause: the recorded t = 0 sample the caller sees is the processed state the engine recorded (C09.FETCH-PY)
+    from . import c09 as _c09
+    borrow(ctx, "C14", _c09.rule_fetch_py, ctx.py)
     from .. import ffi
     ffi.rule_sig(ctx, "C14.FFI", only={"mesh_state", "mesh_chstt", "seed", "init_state_processing"})
     from .. import lints
